@@ -163,7 +163,8 @@ def evaluate(ctx, out, oracles, pid):
 
 def search_job(pid, name, panel, method, sym=(), conc=None, elig=None,
                oracles=(), seed=0, twin=False, max_s=600, elig_fix=None,
-               record_push=False, extra_oracle=None, path_timeout=None):
+               record_push=False, extra_oracle=None, path_timeout=None,
+               history=None):
   """Explores all paths; per path discharges `pc => clause` for every oracle
   clause.  elig_fix: when elig == 'sym', dict geo->row-type fixing some rows
   (used to split the 7^N matrices over jobs)."""
@@ -181,7 +182,8 @@ def search_job(pid, name, panel, method, sym=(), conc=None, elig=None,
       # assume the fixed rows before the table is built
       pass
     out = search.run(ctx, method, sym=sym, conc=conc, elig=elig,
-                     record_push=record_push, path_timeout=path_timeout)
+                     record_push=record_push, path_timeout=path_timeout,
+                     history=history)
     out.budget_scoring = budget_scoring
     obs, nontrivial = evaluate(ctx, out, oracles, pid)
     if extra_oracle is not None:
@@ -235,7 +237,8 @@ def search_job(pid, name, panel, method, sym=(), conc=None, elig=None,
                   elig=out.rows if elig is not None else None,
                   conc=search.apply_concrete(conc, vals), oracles=list(
                       oracles), extra_oracle=extra_oracle,
-                  record_push=record_push, path_timeout=path_timeout)
+                  record_push=record_push, path_timeout=path_timeout,
+                  history=history)
       if len(js.r['violations']) < 40:
         js.r['violations'].append(dict(case=case, clause=cname, twin=twin,
                                        detail=dict(clause=cname, info=det)))
@@ -272,7 +275,8 @@ def replay_search(case, pid):
   try:
     out = search.run(ctx, case['method'], sym=(), conc=conc, elig=elig,
                      record_push=case.get('record_push', False),
-                     path_timeout=60 if case.get('path_timeout') else None)
+                     path_timeout=60 if case.get('path_timeout') else None,
+                     history=case.get('history'))
   except ValueError as ex:
     return dict(violates=False, detail='input rejected: %s' % ex)
   out.budget_scoring = (case['method'] == 'exhaustive' and conc.get(
